@@ -452,9 +452,14 @@ func (g *gen) requestLane() []inputSpec {
 		{"fwd-path-garbage", []string{"X-Forwarded-Path: %zz%%"}},
 		{"fwd-for-garbage", []string{"X-Forwarded-For: 999.1.1.1, ::zz, ,,,"}},
 		{"forwarded-garbage", []string{"Forwarded: for=\"[::1\";proto=;;=,by"}},
+		{"forwarded-unclosed-bracket", []string{"Forwarded: for=[2001:db8:cafe::17"}},
+		{"forwarded-only-bracket", []string{"Forwarded: for=["}},
+		{"forwarded-quoted-port", []string{"Forwarded: for=\"[2001:db8::1]:\";by=\"\"\""}},
+		{"fwd-for-brackets", []string{"X-Forwarded-For: [::1, ]:80, [[]]"}},
 		{"fwd-everything", []string{"X-Forwarded-Proto: https", "X-Forwarded-Host: h", "X-Forwarded-Uri: /sig/x?a=%zz", "X-Forwarded-Method: PATCH", "X-Forwarded-For: 1.1.1.1"}},
 	} {
-		add("forwarded", f.n, "decision", "any", rawReq("GET", "/sig/x", f.h, ""))
+		// well-formed requests: whatever the header values are, a response arrives
+		add("forwarded", f.n, "decision", "answered", rawReq("GET", "/sig/x", f.h, ""))
 	}
 
 	// request lines, headers, bodies
@@ -541,6 +546,11 @@ func (g *gen) requestLane() []inputSpec {
 	for _, e := range []struct{ n, method, scheme, host, path string }{
 		{"envoy-empty", "", "", "", ""},
 		{"envoy-path-garbage", "GET", "http", "h", "://%zz\x7f?%"},
+		{"envoy-path-percent-at-end", "GET", "http", "h", "/sig/100%"},
+		{"envoy-path-percent-non-hex", "GET", "http", "h", "/sig/%zz/x"},
+		{"envoy-path-percent-one-digit", "GET", "http", "h", "/sig/a%4"},
+		{"envoy-path-percent-percent", "GET", "http", "h", "/%%"},
+		{"envoy-path-only-query", "GET", "http", "h", "?a=%zz"},
 		{"envoy-method-garbage", "G T\x00", "http", "h", "/sig/x"},
 		{"envoy-scheme-garbage", "GET", "\x00", "h", "/sig/x"},
 		{"envoy-host-garbage", "GET", "http", "[::1:80", "/sig/x"},
